@@ -34,6 +34,10 @@ structure Db where
   pwRow : Bool          -- (welcome) the processed-welcome record exists
   welcomeRow : Bool     -- (welcome) the welcome record exists
   ptr : Bool            -- the group record's last-message pointer names THE event's message
+  props : Nat := 0      -- proposals queued in the MLS proposal store by this call
+  mlsGroup : Bool := true   -- an MLS group of that id is stored (false before accept_welcome / create_group)
+  active : Bool := true     -- the group record's state is Active
+  accepted : Bool := false  -- (welcome) the welcome record's state is Accepted
   deriving DecidableEq, Repr, Inhabited
 
 /-- labelled storage effects -/
@@ -50,6 +54,11 @@ inductive W where
   | saveGroup | saveRelays | savePw | saveWelcome
   | setPtr              -- the group record's last-message pointer / timestamp is moved to the new message
   | touch               -- a write that does not change the projection (bookkeeping rows)
+  | storeProposal       -- OpenMLS queues a proposal
+  | joinMls             -- OpenMLS stores a new group (StagedWelcome::into_group, MlsGroup::new)
+  | acceptWelcome       -- the welcome record becomes Accepted
+  | activate            -- the group record becomes Active
+  | deactivate          -- the group record becomes Inactive
   deriving DecidableEq, Repr
 
 def applyW (d : Db) : W → Db
@@ -68,6 +77,11 @@ def applyW (d : Db) : W → Db
   | .saveWelcome => { d with welcomeRow := true }
   | .setPtr => { d with ptr := true }
   | .touch => d
+  | .storeProposal => { d with props := d.props + 1 }
+  | .joinMls => { d with mlsGroup := true }
+  | .acceptWelcome => { d with accepted := true }
+  | .activate => { d with active := true }
+  | .deactivate => { d with active := false }
 
 inductive Kind where
   | application         -- process_message of an application message
@@ -98,9 +112,10 @@ def sourcePaths (c : Nat) : List (List Nat) := lookup c Generated.writeSeq
 def effects (case : Nat) : Nat → List W
   | 1 | 2 => [.saveSecret]
   | 3 => [.saveMsg]
-  | 4 => if case = 12 then [.saveGroup] else if case = 0 ∨ case = 16 ∨ case = 11 then [.setPtr] else [.touch]
+  | 4 => if case = 12 ∨ case = 17 then [.saveGroup] else if case = 0 ∨ case = 16 ∨ case = 11 then [.setPtr]
+         else if case = 14 then [.activate] else if case = 15 ∨ case = 2 then [.deactivate] else [.touch]
   | 5 => [.saveRelays]
-  | 6 => [.saveWelcome]
+  | 6 => if case = 14 then [.acceptWelcome] else if case = 15 then [.touch] else [.saveWelcome]
   | 7 => [.savePw]
   | 8 | 15 => [.snapshot]
   | 17 => [.syncRecord]
@@ -113,7 +128,9 @@ def effects (case : Nat) : Nat → List W
   | 40 => [.consume]
   | 41 => [.bumpMls]
   | 42 => [.dropPending, .bumpMls]
+  | 43 | 50 => [.storeProposal]
   | 44 | 46 | 47 | 48 | 49 => [.setPending]
+  | 51 | 52 => [.joinMls]
   | 53 => [.dropPending]
   | 56 => []                              -- StagedWelcome::build_from_welcome reads the key package (observed: no table changes)
   | _ => [.touch]
